@@ -1453,7 +1453,8 @@ class SaveSuite:
             # the with-block state machine of the model (wl_init / wl_enter / wl_append / wl_exit) against the file the library left
             stale = [] if case["via"] == "reenter_foreign" else ["C;stale"]
             return (f"(KWith {cstr(case['name'])} {clist([cstr(r) for r in stale])} {clist([cstr(r) for r in case['recs']])} "
-                    f"{cbool(case['via'] == 'with_exc')} {cbool(case['via'] == 'reenter_foreign')} {copt(pre, cstr)} {copt(obs['content'], cstr)})")
+                    f"{cbool(case['via'] == 'with_exc')} {cbool(case['via'] == 'reenter_foreign')} {copt(pre, cstr)} {copt(obs['content'], cstr)} "
+                    f"{cbool(bool(obs.get('err')))})")
         content = obs["content"]
         # the model starts from "no file"; a refused save leaves the old content, which the model does not carry
         if obs.get("err") and content == pre:
